@@ -87,10 +87,12 @@ func runHTTPHistory(h History) HistObs {
 	}
 	defer c.Close()
 	obs.State0 = string(c.GetState())
+	everInitOK := false
 	for i, st := range h.Steps {
 		o := StepObs{Step: st, I: i, OK: true}
 		tStep := time.Now()
-		t0, g0 := s.touchCount(), s.getCount()
+		t0, g0, b0 := s.touchCount(), s.getCount(), s.bareCount()
+		initOKBefore := everInitOK
 		switch st.Kind {
 		case "init":
 			mode := st.Mode
@@ -107,7 +109,10 @@ func runHTTPHistory(h History) HistObs {
 			_, err := c.Initialize(ctx, &mcp.InitializeRequest{})
 			cancel()
 			o.OK, o.Err = err == nil, errText(err)
-			if err == nil && h.GetSSE {
+			if err == nil {
+				everInitOK = true
+			}
+			if err == nil && h.GetSSE && !legacy {
 				// the library starts its listening-stream GET in the background after a successful handshake;
 				// it belongs to this step, so wait until the server has seen it
 				dl := time.Now().Add(10 * time.Second)
@@ -129,8 +134,21 @@ func runHTTPHistory(h History) HistObs {
 			o.OK, o.Err = err == nil, errText(err)
 		case "getstate":
 		}
-		o.Touch = s.touchCount() - t0
+		// A step is charged with the HTTP requests the server received while it ran. Not charged: the
+		// Streamable listening-stream GET once a handshake has succeeded (only the background goroutine of
+		// that handshake sends it; it normally lands in the Initialize step because of the wait above), and
+		// TCP connections that carried no request at all (spare connections dialled by net/http).
 		o.Wire = s.wireSince(t0)
+		for _, w := range o.Wire {
+			if !legacy && initOKBefore && strings.HasPrefix(w, "GET ") && !(st.Kind == "init" && o.OK) {
+				o.Note = strings.TrimSpace(o.Note + " listening-stream GET of an earlier handshake arrived during this step (not charged)")
+				continue
+			}
+			o.Touch++
+		}
+		if nb := s.bareCount() - b0; nb > 0 {
+			o.Note = strings.TrimSpace(o.Note + fmt.Sprintf(" %d TCP connection(s) without any request closed during this step (not charged)", nb))
+		}
 		o.State = string(c.GetState())
 		o.Ms = time.Since(tStep).Milliseconds()
 		obs.Steps = append(obs.Steps, o)
